@@ -70,6 +70,34 @@ Theorem C03_cdx_no_dangling_reference : forall d b f tos, cdx_ser d = Ok b -> In
 Proof. exact cdx_deps_closed. Qed.
 Print Assumptions C03_cdx_no_dangling_reference.
 
+(* ---- reading back: identity attributes, for every node (no class) ---- *)
+Theorem C03_spdx_identity_attributes : forall parse_time fmt_time n,
+  let p := pkg_to_node parse_time (node_to_pkg fmt_time n) in
+  let f := file_to_node (node_to_file n) in
+  (n_id p = n_id n /\ n_name p = n_name n /\ n_version p = n_version n) /\ (n_id f = n_id n /\ n_name f = n_name n).
+Proof. exact spdx_identity. Qed.
+Print Assumptions C03_spdx_identity_attributes.
+
+Theorem C03_cdx_identity_attributes : forall n cc, n_id n <> "" ->
+  let n' := comp_to_node (node_to_comp n) cc in
+  n_id n' = n_id n /\ n_name n' = n_name n /\ n_version n' = n_version n.
+Proof. exact cdx_identity. Qed.
+Print Assumptions C03_cdx_identity_attributes.
+
+(* the hashes and package identifiers both formats support *)
+Theorem C03_hashes_both_formats : forall parse_time fmt_time n cc,
+  (spdx_hash_class (n_hashes n) -> n_hashes (pkg_to_node parse_time (node_to_pkg fmt_time n)) = n_hashes n) /\
+  (cdx_hash_class (n_hashes n) -> n_hashes (comp_to_node (node_to_comp n) cc) = n_hashes n).
+Proof. intros. split; [apply spdx_package_hashes|apply cdx_node_hashes]. Qed.
+Print Assumptions C03_hashes_both_formats.
+
+Theorem C03_identifiers_both_formats : forall parse_time fmt_time n cc,
+  (Forall spdx_extref_class (n_external_references n) -> spdx_ident_class (n_identifiers n) ->
+     n_identifiers (pkg_to_node parse_time (node_to_pkg fmt_time n)) = n_identifiers n) /\
+  (cdx_ident_class (n_identifiers n) -> n_identifiers (comp_to_node (node_to_comp n) cc) = n_identifiers n).
+Proof. intros. split; [apply spdx_package_identifiers|apply cdx_node_identifiers]. Qed.
+Print Assumptions C03_identifiers_both_formats.
+
 (* non-vacuity: a cyclic, doubly-contained graph with a dependency between non-root nodes *)
 Definition nd3 (i : string) : node :=
   {| n_id := i; n_type := 0; n_name := "n"; n_version := ""; n_file_name := ""; n_url_home := "";
